@@ -838,6 +838,11 @@ class TLSConnection(TLSRecordLayer):
                 next((cipher for cipher in cipherSuites
                  if cipher in CipherSuite.dhAllSuites), None) is not None:
             groups.extend(self._groupNamesToList(settings))
+        # a client that offers nothing below TLS 1.3 must not advertise
+        # groups that are not defined for it (RFC 8446, section 4.2.7)
+        if shares is not None and settings.minVersion >= (3, 4):
+            groups = [i for i in groups
+                      if i not in TLS_1_3_FORBIDDEN_GROUPS]
         # Send the extension only if it will be non empty
         if groups:
             if shares:
